@@ -677,10 +677,10 @@ def long_jobs(tier):
         for d1 in d1s:
             jobs.append(J("long%s-p1-d%d" % (kind, d1), "zzH_long" + kind, params=dict(kp, n=40, p=1, w=3, d1=d1, bs=40), uf_mul=True))
     if tier != "quick":
-        for kind, kp in kinds + [("BUP", dict(inputLen=3, hashBits=1, bucketSize=1))]:
+        for kind, kp in kinds:
             for p in (2, 3):
                 for d1 in (14, 17, 21, 22, 26, 30, 33):
-                    jobs.append(J("long%s-p%d-d%d" % (kind, p, d1), "zzH_long" + kind, params=dict(dict(kp, hashBits=0) if kind != "BUP" else kp, n=44, p=p, w=3, d1=d1, d2=d1 + 6, bs=44), uf_mul=True))
+                    jobs.append(J("long%s-p%d-d%d" % (kind, p, d1), "zzH_long" + kind, params=dict(kp, hashBits=0, n=44, p=p, w=3, d1=d1, d2=d1 + 6, bs=44), uf_mul=True))
     return jobs, {"structured long inputs": "new parser, fills of 3 and 37 bytes; data periodic (period 1%s) over arbitrary base bytes with an arbitrary byte at position d1 in %s"
                                             "%s, so that matches end at every length from 7 to 26 across the 8/16/24-byte steps of the extension loops; WindowSize symbolic from 1; flags symbolic"
                                             % ("" if tier == "quick" else ", 2, 3", list(d1s), "" if tier == "quick" else " (period 2/3: a second arbitrary byte 6 positions later)")}
